@@ -501,6 +501,51 @@ func TestC04(t *testing.T) {
 		r.Exhaustive("hostile", !r.Replaying())
 	}
 
+	// lists of near-equal IRIs: the decoders de-duplicate list members with the IRI equivalence, so every pair of presentations
+	// (case, trailing slash, dot segments, query order and multiplicity, fragment) of one id goes through it while decoding
+	if r.WantLayer("iri-lists", true) {
+		var iris []string
+		for _, h := range []string{"example.com", "EXAMPLE.com:8080"} {
+			for _, p := range []string{"", "/", "/a", "/A/", "/a/./b", "/a//b"} {
+				for _, q := range []string{"", "?x=1", "?x=1&x=2", "?x=2&x=1", "?x=1&x=1", "?x=1&y=2", "?y=2&x=1", "?x="} {
+					iris = append(iris, "https://"+h+p+q)
+				}
+			}
+		}
+		iris = append(iris, "http://example.com/a?x=1#f", "https://example.com/%zz", "https://example.com/a?x=%zz", "https://[::1/a", "https://example.com/a?x=1;y=2", "not a url", "")
+		n := 0
+		names := []string{"UnmarshalJSON", "(*Object).UnmarshalJSON", "(*OrderedCollection).UnmarshalJSON", "(*IRIs).UnmarshalJSON", "(*ItemCollection).UnmarshalJSON", "JSONGetItems"}
+		for i, a := range iris {
+			for j, b := range iris {
+				ja, _ := json.Marshal(a)
+				jb, _ := json.Marshal(b)
+				docs := [][]byte{
+					[]byte(fmt.Sprintf(`[%s,%s]`, ja, jb)),
+					[]byte(fmt.Sprintf(`{"type":"Note","to":[%s,%s,{"id":%s,"type":"Person"}],"tag":[{"id":%s},{"id":%s}]}`, ja, jb, jb, ja, jb)),
+					[]byte(fmt.Sprintf(`{"type":"OrderedCollection","orderedItems":[{"id":%s,"type":"Note"},%s,{"id":%s,"type":"Note"}]}`, ja, jb, jb)),
+				}
+				for di, doc := range docs {
+					e, ok := entryByName[names[(i+j+di)%len(names)]]
+					if di == 0 {
+						e, ok = entryByName[[]string{"UnmarshalJSON", "(*IRIs).UnmarshalJSON", "JSONItemsFn"}[(i+j)%3]]
+					}
+					if !ok {
+						e = entryByName["UnmarshalJSON"]
+					}
+					cell := fmt.Sprintf("%s iri-pair#%d,%d doc%d", e.name, i, j, di)
+					if !r.WantCell(cell) {
+						continue
+					}
+					n++
+					ds, oc := c04Call(e, doc, false)
+					record("iri-lists", cell, e, doc, ds, oc, n%9973 == 0)
+				}
+			}
+		}
+		r.Cells(n, n)
+		r.Exhaustive("iri-lists", !r.Replaying())
+	}
+
 	jsonSeeds, gobSeeds := c04Seeds()
 	if r.WantLayer("truncation", true) {
 		n := 0
